@@ -161,8 +161,9 @@ class ParseTimeout(Exception):
 
 
 class time_limit:
-    """Context manager: raise ParseTimeout if the body runs longer than `seconds` (wall clock).
-    A budget hit is reported as inconclusive by the callers, never as a violation."""
+    """Context manager: raise ParseTimeout if the body burns more than `seconds` of CPU time of
+    this process (ITIMER_PROF, so that a heavily loaded machine cannot trip it). A budget hit is
+    reported as inconclusive by the callers, never as a violation."""
 
     def __init__(self, seconds: float = 10.0):
         self.seconds = seconds
@@ -172,14 +173,14 @@ class time_limit:
 
     def __enter__(self):
         import signal
-        self._old = signal.signal(signal.SIGALRM, self._fire)
-        signal.setitimer(signal.ITIMER_REAL, self.seconds)
+        self._old = signal.signal(signal.SIGPROF, self._fire)
+        signal.setitimer(signal.ITIMER_PROF, self.seconds)
         return self
 
     def __exit__(self, *exc):
         import signal
-        signal.setitimer(signal.ITIMER_REAL, 0)
-        signal.signal(signal.SIGALRM, self._old)
+        signal.setitimer(signal.ITIMER_PROF, 0)
+        signal.signal(signal.SIGPROF, self._old)
         return False
 
 
